@@ -52,7 +52,7 @@ fn rewards_vault(db: &InMemorySubstateDatabase) -> NodeId {
          .0
 }
 
-fn project(db: &InMemorySubstateDatabase, r: &Result<TransactionReceipt, String>, n: u64) -> Value {
+pub(crate) fn project(db: &InMemorySubstateDatabase, r: &Result<TransactionReceipt, String>, n: u64) -> Value {
     let receipt = match r {
         Err(e) => return json!({"a": "receipt", "n": n, "class": format!("panic:{}", e).chars().take(120).collect::<String>(), "touched": [], "events": [], "royalties": 0, "units": [0, 0]}),
         Ok(x) => x,
